@@ -19,6 +19,7 @@ from vlib import placement as pl
 
 ID = "C17"
 LEVEL = "exploration"
+FP_MODE_MATTERS = True  # values travel through compiled code: see vlib/main.py run_case_guarded
 SHRINK_BUDGET = 30
 SLOT = 24  # bytes of record per argument: [0:8] value or address, [8:16] first bytes behind a pointer, [16:24] spare
 RULE = (
@@ -56,7 +57,7 @@ def budget(tier):
 
 def essential_labels(tier):
     return ["arg:scalar", "arg:ptr_ndarray", "arg:ptr_slice", "arg:ptr_xarray", "arg:xobj_struct", "arg:xobj_array", "arg:xobj_union", "arg:xobj_hybrid",
-            "after_growth", "omp", "has_return", "arg:ptr_noncontiguous_2d", "neg:positional", "neg:wrong_dtype", "xobj_offset_nonzero"]
+            "after_growth", "omp", "has_return", "arg:ptr_noncontiguous_2d", "neg:positional", "neg:wrong_dtype", "neg:wrong_dtype_not_numeric", "xobj_offset_nonzero"]
 
 
 @st.composite
@@ -99,6 +100,7 @@ def cases(draw, tier):
         "neg": draw(st.sampled_from([None, None] + NEG)),
         "twice": draw(st.booleans()),
         "redefine": draw(st.integers(0, 2)) == 0,
+        "default_flags": draw(st.integers(0, 2)) == 0,
     }
 
 
@@ -129,6 +131,23 @@ def c_source(name, sig):
             body.append(f"  ((uint8_t*) a{i})[1] ^= 0xA5;")
     params.append("uint8_t* rec")
     return params, body
+
+
+def scalar_bytes(t, v):
+    """the bytes of value v in kind t.  Subnormal Float32 values are converted with integer arithmetic only: the
+    expected bytes must not depend on the floating-point mode of the process (a loaded module may have switched it)"""
+    if t == "Float32" and v == v and 0 < abs(v) < 2.0 ** -126:
+        import struct
+        from fractions import Fraction
+
+        m = Fraction(abs(v)) * (1 << 149)
+        if m.denominator == 1:
+            return struct.pack("<I", (0x80000000 if v < 0 else 0) | int(m))
+    if t == "Float64":
+        import struct
+
+        return struct.pack("<d", v)
+    return np.array([v], dtype=NPT[t]).tobytes()
 
 
 def run_case(case):
@@ -266,7 +285,12 @@ def run_case(case):
         if is_raised(got) or got != 42:
             return fail("scalar_not_faithful", f"earlier kernel {kname}(q=41) returned {got}", "Int32|earlier_kernel", labels)
         labels.add("kernel_name_redefined_after_a_call")
-    r = sut(ctx.add_kernels, sources=[src], kernels={kname: kern}, extra_compile_args=cbuild.FAST_FLAGS, extra_link_args=())
+    if case.get("default_flags"):
+        # built the way callers usually build: with the library's own default compiler and linker options
+        r = sut(ctx.add_kernels, sources=[src], kernels={kname: kern})
+        labels.add("built_with_default_flags")
+    else:
+        r = sut(ctx.add_kernels, sources=[src], kernels={kname: kern}, extra_compile_args=cbuild.FAST_FLAGS, extra_link_args=())
     if is_raised(r):
         return fail("kernel_build_failed", f"{r}\n{src[:600]}", r.key, labels)
 
@@ -305,7 +329,16 @@ def run_case(case):
                 other = "Float32" if t != "Float32" else "Int32"
                 if np.dtype(NPT[other]).itemsize == np.dtype(NPT[t]).itemsize and other == "Float32" and t in ("Int32", "UInt32"):
                     other = "Float64"
-                kw[f"a{i}"] = np.zeros(8, dtype=NPT[other])
+                wrong = np.zeros(8, dtype=NPT[other])
+                if (len(expect) + case["neg_salt"]) % 2 if "neg_salt" in case else len(case["args"]) % 2:
+                    # an array that is not numeric at all, of the declared element's width (or kind)
+                    width = np.dtype(NPT[t]).itemsize
+                    alt = {"Float32": np.zeros(8, dtype="float16"), "Float64": None}.get(
+                        t, {1: np.zeros(8, dtype=bool), 2: np.zeros(8, dtype="S2"), 4: np.zeros(8, dtype="S4"), 8: np.array([1, 2, 3, 4, 5, 6, 7, 8], dtype=object)}[width])
+                    if alt is not None:
+                        wrong = alt
+                        labels.add("neg:wrong_dtype_not_numeric")
+                kw[f"a{i}"] = wrong
                 call = lambda: entry()(**kw)
         if call is not None:
             labels.add("neg:" + neg)
@@ -328,7 +361,7 @@ def run_case(case):
             slot = rec[SLOT * i: SLOT * (i + 1)].tobytes()
             if e[0] == "scalar":
                 t, v = e[1], e[2]
-                want = np.array([v], dtype=NPT[t]).tobytes()
+                want = scalar_bytes(t, v)
                 if slot[: len(want)] != want:
                     return fail("scalar_not_faithful", f"a{i} ({t}) = {v!r}: kernel saw bytes {slot[:len(want)].hex()}, expected {want.hex()}", t, labels)
             elif e[0] == "nd":
@@ -376,7 +409,7 @@ def run_case(case):
             return fail("record_overrun", "bytes behind the record changed", "", labels)
         if case["ret"] is not None:
             ra = case["args"][case["ret"]]
-            want = np.array([ra["v"]], dtype=NPT[ra["t"]]).tobytes()
+            want = scalar_bytes(ra["t"], ra["v"])
             got = sut(lambda: np.array([res], dtype=NPT[ra["t"]]).tobytes())
             if is_raised(got) or got != want:
                 return fail("return_value", f"returned {res!r}, argument was {ra['v']!r} ({ra['t']})", ra["t"], labels)
